@@ -532,7 +532,10 @@ def subscript(eng, base, idx, node):
     i = as_int(eng, idx)
     if isinstance(b, VSeq):
         if i is None:
-            raise OutOfSubset(node, "non-int index")
+            if eng.spec or not involves_opaque(eng, [idx]):
+                raise OutOfSubset(node, "non-int index")
+            r = eng.opaque_call("<getitem with untracked index>", [], node, havoc_args=False)
+            return VInt(fresh_int("elem")) if b.esort == "int" else r
         c = const_of(i)
         if c is not None and c < 0:
             j = b.n + c
@@ -583,7 +586,14 @@ def store_subscript(eng, base, idx, v, node):
         i = as_int(eng, idx)
         x = as_int(eng, v) if b.esort == "int" else to_val(eng, v)
         if i is None or x is None:
-            raise OutOfSubset(node, "sequence item assignment with non-int")
+            if not involves_opaque(eng, [idx, v]):
+                raise OutOfSubset(node, "sequence item assignment with non-int")
+            eng.opaque_call("<setitem with untracked index/value>", [], node, havoc_args=False)
+            nb = eng.havoc_like(b, "after_setitem")
+            if isinstance(nb, VSeq):
+                nb = VSeq(nb.at, b.n, nb.kind, nb.arr, nb.esort)     # length is unchanged
+            eng.heap[base.addr] = nb
+            return
         c = const_of(i)
         j = b.n + c if (c is not None and c < 0) else (z3.IntVal(c) if c is not None else z3.If(i < 0, i + b.n, i))
         if not eng.branch(z3.And(0 <= j, j < b.n)):
@@ -634,7 +644,7 @@ def del_subscript(eng, base, idx, node):
 # ----------------------------------------------------------------------------------------------
 def make_list(eng, items, node):
     ds = [eng.deref(x) for x in items]
-    if all(isinstance(x, (VInt, VBool)) for x in ds):
+    if ds and all(isinstance(x, (VInt, VBool)) for x in ds):
         r = seq_of_terms([as_int(eng, x) for x in ds], "list")
         return eng.alloc(r)
     if ds and all(isinstance(x, VSeq) and x.kind in ("bytes", "bytearray", "memoryview") for x in ds):
@@ -910,7 +920,23 @@ def call_model(eng, f, args, kwargs, node, frame):
         if eng.spec:
             raise OutOfSubset(node, f"unknown function {f.name} in spec")
         return eng.opaque_call(f.name, args + list(kwargs.values()), node)
-    return fn(eng, args, kwargs, node, frame)
+    try:
+        return fn(eng, args, kwargs, node, frame)
+    except (OutOfSubset, TypeError, AttributeError, z3.Z3Exception) as ex:
+        if eng.spec or not involves_opaque(eng, args + list(kwargs.values())):
+            raise
+        # a modelled builtin applied to values the engine does not track: over-approximate
+        return eng.opaque_call(f"{f.name}(untracked)", args + list(kwargs.values()), node)
+
+
+def involves_opaque(eng, vals, depth=0):
+    for v in vals:
+        d = eng.deref(v) if isinstance(v, VRef) else v
+        if isinstance(d, VOpaque) or (isinstance(d, VSeq) and d.esort == "val") or isinstance(d, (VStr, VObj, VDict, VFunc, VClass)):
+            return True
+        if isinstance(d, VTuple) and depth < 3 and involves_opaque(eng, d.items, depth + 1):
+            return True
+    return False
 
 
 def stdlib_contract(eng, name):
@@ -1355,7 +1381,7 @@ def m_chunks_length(eng, args, kwargs, node, frame):
 # ----------------------------------------------------------------------------------------------
 def construct(eng, cls: VClass, args, kwargs, node, frame):
     if cls.name in MODELS:
-        return MODELS[cls.name](eng, args, kwargs, node, frame)
+        return call_model(eng, VFunc("model", name=cls.name), args, kwargs, node, frame)
     if eng.vf.hierarchy.is_subclass(cls.name, "BaseException"):
         v = VOpaque(tag=f"exc:{cls.name}")
         v.exc = PyExc(cls.name, site=getattr(node, "lineno", None))
@@ -1390,7 +1416,24 @@ def opaque_method(eng, recv, r, name, args, kwargs, node):
     """Method of a tracked object without contract: havoc the object, may raise."""
     what = f"{r.cls}.{name}"
     eng.opaque_calls.add(what)
-    if isinstance(recv, VRef):
+    cs = C.CLASS_SPECS.get(r.cls)
+    if cs and cs.stable and isinstance(recv, VRef):
+        # typestate class: a method without contract keeps the stable fields, provided its
+        # definition (if the class has one) neither assigns them nor calls a mutator
+        loc = eng.vf.find_method_def(r.cls, name)
+        if loc is not None:
+            mod, fn, owner = loc
+            for n in ast.walk(fn):
+                bad = None
+                if isinstance(n, ast.Attribute) and isinstance(n.ctx, ast.Store) and isinstance(n.value, ast.Name) and n.value.id == "self" and n.attr in cs.stable:
+                    bad = f"assigns self.{n.attr}"
+                if isinstance(n, ast.Call) and isinstance(n.func, ast.Attribute) and n.func.attr in cs.mutators:
+                    bad = f"calls .{n.func.attr}()"
+                if bad:
+                    raise OutOfSubset(node, f"uncontracted-mutator: {r.cls}.{name} {bad}; it needs a contract")
+        nf = {f: (x if (f in cs.stable or isinstance(x, VRef)) else eng.havoc_like(x, f"{name}.{f}")) for f, x in r.fields.items()}
+        eng.heap[recv.addr] = VObj(r.cls, nf, r.ident)
+    elif isinstance(recv, VRef):
         eng.heap[recv.addr] = eng.havoc_like(r, f"self_after_{name}")
     for a in args:
         eng.havoc_reachable(a)
@@ -1404,7 +1447,18 @@ def call_method(eng, recv, r, name, args, kwargs, node, frame):
     if isinstance(r, VSeq):
         fn = SEQ_METHODS.get(name)
         if fn is not None:
-            return fn(eng, recv, r, args, kwargs, node)
+            try:
+                return fn(eng, recv, r, args, kwargs, node)
+            except (OutOfSubset, TypeError, AttributeError, z3.Z3Exception):
+                if eng.spec or not (involves_opaque(eng, args + list(kwargs.values())) or r.esort == "val"):
+                    raise
+                if isinstance(recv, VRef):
+                    eng.heap[recv.addr] = eng.havoc_like(r, "after_" + name)
+                return eng.opaque_call(f"{r.kind}.{name}(untracked)", args, node)
+        if r.esort == "val" or involves_opaque(eng, args):
+            if isinstance(recv, VRef):
+                eng.heap[recv.addr] = eng.havoc_like(r, "after_" + name)
+            return eng.opaque_call(f"{r.kind}.{name}(untracked)", args, node)
         raise OutOfSubset(node, f"method {r.kind}.{name}")
     if isinstance(r, VChunks):
         if name == "append":
